@@ -734,7 +734,7 @@ def c10(tier):
 
 @check("C11")
 def c11(tier):
-    return broker_check("C11", tier, [("AdmitSpec", "cover", 4, 5, "mockSuccess"), ("AuthSpec", "cover", 3, 3, "mockFailure")], {"C11", "C01", "C10", "C07"},
+    return broker_check("C11", tier, [("AdmitSpec", "cover", 4, 5, "mockSuccess"), ("AuthSpec", "cover", 3, 3, "mockFailure"), ("SelSpec", "cover", 6, 7, "verifSelective")], {"C11", "C01", "C10", "C07"},
                         "configuration admit: 14 kinds of refused first packets (unsupported level, name mismatch, client id too long / unprintable / empty with "
                         "CleanSession 0, reserved flag, will flags, other packet types, truncated CONNECT, garbage, bad fixed-header flags) with follow-up "
                         "SUBSCRIBE '#' and retained PUBLISH on the refused connection, accepting and rejecting authenticators; CONNACK bytes, closure, witness "
